@@ -25,7 +25,7 @@ TECHNIQUE = ("bounded exhaustive enumeration of terminal behaviours plus "
 RULE = ("all (start, error flag, target, per-transition delay 0..k, ack delay "
         "0..1, error at status read n or never) with k=1,n<=5 (quick) / "
         "k=3,n<=8 (thorough) are enumerated, plus Hypothesis cases with delays "
-        "up to 6; the real Terminal.to_operational runs against a simulated "
+        "up to 6 and occasionally 40-300; the real Terminal.to_operational runs against a simulated "
         "terminal; non-trivial = at least one state request was written; "
         "distinct by the whole case")
 ASSUMPTIONS = [
@@ -59,7 +59,11 @@ def strategy(tier):
         "start": st.sampled_from(ORDER),
         "error": st.booleans(),
         "target": st.sampled_from([2, 4, 8]),
-        "delays": st.lists(st.integers(0, 6), min_size=3, max_size=3),
+        # now and then a transition takes hundreds of polls
+        "delays": st.lists(st.integers(0, 6) | st.integers(0, 6)
+                           | st.sampled_from([40, 99, 100, 101, 150, 255, 256,
+                                              300]),
+                           min_size=3, max_size=3),
         "ack_delay": st.integers(0, 2),
         "error_at": st.none() | st.integers(1, 20),
         "latency": st.integers(0, 3),
@@ -105,7 +109,7 @@ def run_case(case):
             t.to_operational(MachineState(case["target"])))
         while not task.done():
             await asyncio.sleep(0)
-            if term.al_status_reads > 400:
+            if term.al_status_reads > 400 + sum(delays):
                 task.cancel()
                 outcome["stalled"] = True
                 break
@@ -121,7 +125,7 @@ def run_case(case):
         server.cancel()
 
     try:
-        simloop.run(go, budget=100000)
+        simloop.run(go, budget=400000)
     except simloop.LoopStalled:
         outcome["result"] = "deadlock"
     except simloop.BudgetExceeded:
@@ -147,7 +151,7 @@ def run_case(case):
                                      for e in events[1:]) else "no-err-seen"]
     return dict(ok=what is None, nontrivial=nreq > 0, what=what or "",
                 classes=classes,
-                summary={"events": events, "result": outcome["result"]})
+                summary={"events": events[:40], "result": outcome["result"]})
 
 
 def judge(case, events, result):
